@@ -62,6 +62,33 @@ def extreme_values():
     return out
 
 
+def degenerate_reductions():
+    """a reduction whose description brackets no axis runs the elementary operation on ONE value per output position: var/std give 0, count_nonzero 0/1, any/all a bool, the rest the value"""
+    out = []
+    x = np.array([[0.0, 3.0, -2.0], [5.0, 0.0, 1.5]])
+    ref = {"sum": lambda v: v, "mean": lambda v: v, "prod": lambda v: v, "max": lambda v: v, "min": lambda v: v, "var": lambda v: np.zeros_like(v), "std": lambda v: np.zeros_like(v),
+           "count_nonzero": lambda v: (v != 0).astype(int), "any": lambda v: v != 0, "all": lambda v: v != 0, "logsumexp": lambda v: v}
+    for op, f in ref.items():
+        for desc, perm in (("a b", None), ("a b -> a b", None), ("a b -> b a", (1, 0)), ("a b -> b 1 a", (1, 0))):
+            want = f(x)
+            if perm:
+                want = np.transpose(want, perm)
+            if desc.endswith("b 1 a"):
+                want = want[:, None, :]
+            for be in ("numpy", "numpy.numpylike", "numpy.einsum"):
+                o = harness.call_einx(op, desc, [x.copy()], {}, be)
+                dd = {"op": op, "description": desc, "shapes": [[2, 3]], "kwargs": {}, "backend": be}
+                if o[0] == "exc" and "OperationNotSupported" in o[1]:
+                    out.append(("unsupported", dd, be, None))
+                elif o[0] != "ok":
+                    out.append(("exception", dd, be, f"{o[1:]}"[:200]))
+                else:
+                    got = np.asarray(o[1])
+                    ok = got.shape == want.shape and np.allclose(got.astype(float), np.asarray(want).astype(float))
+                    out.append(("ok", dd, be, None) if ok else ("mismatch", dd, be, f"no axis is reduced: got {got.tolist()}, the elementary operation on single values gives {np.asarray(want).tolist()}"[:300]))
+    return out
+
+
 def run(tier, seed):
     chk = Check("C01", tier, seed, "other")
     try:
@@ -71,7 +98,7 @@ def run(tier, seed):
         chk.add_lemmas(tier)
     except ImportError:
         pass
-    res = _corpus_run.run_corpus(seed, tier) + extreme_values()
+    res = _corpus_run.run_corpus(seed, tier) + extreme_values() + degenerate_reductions()
     add_corpus(chk, res, "public API vs loop-notation interpreter, 3 numpy backends", "templates from the grammar of DESIGN §2.6: <=4 names, nesting depth 1, sizes from pools with equal lengths and 1s")
     chk.trusted += ["loop-notation interpreter (vf/spec/notation.py, written from the property statement and docs, imports no einx)", "numpy as elementary operations"]
     chk.assumptions += ["floating-point results compared up to rel 1e-6", "only numpy backends importable", "values for descriptions beyond the corpus bound are not decided"]
